@@ -11,7 +11,7 @@ Line protocol for C18 (one request line → one answer line, malformed → `bad-
     (`p` = 1 present / 0 absent) and the argument namespace (dests not listed are absent)
     → `ok v₀ … v_{nattr-1} | tag …` (final settings by attribute id, keys of the final confs) or `keyerror`
 * `opts D n (attr val)ⁿ K n … A 1 n …`  → the conf keys written by `read_options`, `tag:kind` in dict order
-* `wf`                                  → `guarded numericNotTruthy` as `true`/`false`
+* `wf`                                  → `guarded=… numericNotTruthy=… truthyNumeric=<dest ids> nonIsolated=<tag ids>`
 * `names tag|key|attr|dest|str|fn|flag` → the generated name list, `,`-separated
 * `main b₁…b₈ mode b₁…b₇`               → actions of `mainActions`
 * `fccalc fc fcsym load`                → `fcCalculator` (`fc`: `-` absent, `?` unknown, or id)
@@ -191,7 +191,11 @@ def handle (line : String) : String :=
       pure ("ok " ++ " ".intercalate (confs.map (fun e => toString e.1 ++ ":" ++ showRawKind e.2)))
     | "wf" =>
       if !c.atEnd then none
-      pure (toString Gen.table.progGuarded ++ " " ++ toString Gen.table.numericNotTruthy)
+      let T := Gen.table
+      let bad := (T.optRules.filter (fun r => r.numeric && r.act != Act.notNone)).map (fun r => toString r.dest)
+      let nonIso := (Gen.codeTags.filter (fun t => !T.tagIsolated t)).map toString
+      pure ("guarded=" ++ toString T.progGuarded ++ " numericNotTruthy=" ++ toString T.numericNotTruthy ++
+        " truthyNumeric=" ++ ",".intercalate bad ++ " nonIsolated=" ++ ",".intercalate nonIso)
     | "names" =>
       let (which, c) ← c.str?
       if !c.atEnd then none
